@@ -52,7 +52,7 @@ type stepper struct {
 	writes    []*wrec
 }
 
-var units = []int{16384, 32768}
+var units = []int{16384, 24576}
 
 func (s *stepper) Begin(b replay.Behaviour, rng *rand.Rand) error {
 	if len(b) == 0 || b[0].A != "Init" {
